@@ -515,3 +515,78 @@ func describeVal(v ssa.Value) string {
 	}
 	return v.Name() + " = " + s
 }
+
+// R-UNFOLD-COMPLETE (C09, C01, C08): what Unfold returns is not a type name.
+func init() {
+	register(&Rule{Name: "R-UNFOLD-COMPLETE", Min: 2,
+		Doc: "the unfolding function (SessionType, environment → SessionType, found by role) returns, on every path, nil, its argument on the branch where that argument was found not to be a type name, or the result of unfolding again (a call of an unfolding function); it never returns a looked-up definition body as it is, because a definition may be an alias of another name and callers take the polarity of the result",
+		Run: runUnfoldComplete})
+}
+
+func runUnfoldComplete(p *Program, r *RuleResult) {
+	ua := newUnfoldAnalysis(p)
+	label := p.Named(typesPkg, "LabelType")
+	n := 0
+	for fn := range ua.unfoldFn {
+		if fn == nil || fn.Blocks == nil || fn.Pkg == nil || fn.Pkg.Pkg.Path() != typesPkg {
+			continue
+		}
+		// the session-type parameter
+		var prm *ssa.Parameter
+		for _, q := range fn.Params {
+			if isSessionTypeType(q.Type()) {
+				prm = q
+				break
+			}
+		}
+		if prm == nil {
+			continue
+		}
+		view := p.View(fn)
+		ord := 0
+		for _, b := range view.Blocks() {
+			ins := view.Instrs(b)
+			ret, ok := ins[len(ins)-1].(*ssa.Return)
+			if !ok || len(ret.Results) != 1 {
+				continue
+			}
+			n++
+			ord++
+			construct := fmt.Sprintf("return#%d", ord)
+			v := ret.Results[0]
+			okRet := false
+			why := ""
+			switch x := v.(type) {
+			case *ssa.Const:
+				okRet = x.IsNil()
+				why = "nil"
+			case *ssa.Call:
+				if sc := x.Common().StaticCallee(); sc != nil && ua.unfoldFn[sc] {
+					okRet, why = true, "unfolded again"
+				}
+			case *ssa.Parameter:
+				if x == prm {
+					// only where the argument is known not to be a name
+					for f := range view.FactsAt(b) {
+						ex, isEx := f.v.(*ssa.Extract)
+						if !isEx || f.k != factFalse || ex.Index != 1 {
+							continue
+						}
+						if ta, isTA := ex.Tuple.(*ssa.TypeAssert); isTA && ta.X == ssa.Value(prm) {
+							if nt := namedOf(ta.AssertedType); nt != nil && nt.Obj() == label.Obj() {
+								okRet, why = true, "the argument, known not to be a type name"
+							}
+						}
+					}
+				}
+			}
+			if okRet {
+				r.add(fnName(fn), construct, Holds, p.instrPos(ret), why)
+			} else {
+				r.add(fnName(fn), construct, Violated, p.instrPos(ret),
+					"the unfolding function can return "+describeVal(v)+", which may still be a type name (a definition can be an alias `type A = B`): callers that take the polarity of the result, or assert its constructor, then hit the 'unfold type before checking for polarity' panic or reject well-typed programs")
+			}
+		}
+	}
+	r.count("returns of unfolding functions", n)
+}
